@@ -189,7 +189,7 @@ func checkC16(c *Ctx) {
 		ops := make([]sdf.SDF2, 0, n)
 		desc := make([]string, 0, n)
 		var counters []*countSDF2
-		layout := ru.I(4) // 0 scattered, 1 clustered/overlapping, 2 nested, 3 touching row
+		layout := ru.I(5) // 0 scattered, 1 clustered/overlapping, 2 nested, 3 touching row, 4 dyadic lattice (exact ties)
 		for j := 0; j < n; j++ {
 			var s sdf.SDF2
 			size := scale * ru.LogR(0.02, 1)
@@ -207,6 +207,27 @@ func checkC16(c *Ctx) {
 				rd := 0.5 * math.Min(sz.X, sz.Y) * ru.R(0, 1)
 				s = sdf.Box2D(sz, rd)
 				d = fmt.Sprintf("rbox(%g,%g,%g)", sz.X, sz.Y, rd)
+			}
+			if layout == 4 { // exactly representable sizes and positions, no rotation: points can lie exactly on operand boundaries
+				q := float64(ru.IR(1, 8)) / 4
+				if ru.Bool() {
+					s, _ = sdf.Circle2D(q)
+					d = fmt.Sprintf("circle(%g)", q)
+				} else {
+					sz := v2.Vec{X: 2 * q, Y: float64(ru.IR(1, 8)) / 2}
+					s = sdf.Box2D(sz, 0)
+					d = fmt.Sprintf("box(%g,%g)", sz.X, sz.Y)
+				}
+				t := v2.Vec{X: float64(ru.IR(-16, 16)) / 8, Y: float64(ru.IR(-16, 16)) / 8}
+				if j == n-1 && ru.Bool() {
+					t = v2.Vec{X: 40, Y: 40} // a far operand
+				}
+				s = sdf.Transform2D(s, sdf.Translate2d(t))
+				cs := &countSDF2{s: s}
+				counters = append(counters, cs)
+				ops = append(ops, cs)
+				desc = append(desc, fmt.Sprintf("%s@(%g,%g)", d, t.X, t.Y))
+				continue
 			}
 			var t v2.Vec
 			switch layout {
@@ -247,6 +268,9 @@ func checkC16(c *Ctx) {
 		}
 		blend := blends[i%len(blends)]
 		k := scale * ru.LogR(0.01, 3)
+		// history: one evaluation with the default minimum before a blend is installed; that very point is queried again first
+		warm := v2.Vec{X: ru.R(-1, 1) * scale, Y: ru.R(-1, 1) * scale}
+		u.Evaluate(warm)
 		switch blend {
 		case "PolyMin":
 			u.SetMin(sdf.PolyMin(k))
@@ -262,7 +286,18 @@ func checkC16(c *Ctx) {
 		nviol := 0
 		for q := 0; q < nPts; q++ {
 			var p v2.Vec
-			switch ru.I(4) {
+			mode := ru.I(4)
+			if layout == 4 && ru.P(0.7) {
+				mode = 4
+			}
+			if q == 0 {
+				mode = 5
+			}
+			switch mode {
+			case 4: // dyadic lattice point
+				p = v2.Vec{X: float64(ru.IR(-24, 24)) / 8, Y: float64(ru.IR(-24, 24)) / 8}
+			case 5:
+				p = warm
 			case 0: // anywhere in an enlarged box
 				ctr := bb.Center()
 				sz := bb.Size()
